@@ -110,6 +110,8 @@ type c3Scenario struct {
 	Ignore  string  // word: lines whose group 1 equals it are ignored
 	Flags   []string
 	HasCSV  bool
+	KeepCols int  // spark-trunc: --cols
+	ColsDesc bool // spark-trunc: --sort-cols text:reverse
 	OneByOne bool // equality only demanded between 1-reader-1-worker variants (not used by the order-insensitive commands)
 }
 
@@ -140,7 +142,7 @@ func (v *c3Variant) String() string {
 
 func c3GenScenario(t *simrt.Tape) *c3Scenario {
 	sc := &c3Scenario{}
-	sc.Kind = []string{"histo", "histo", "table", "heatmap", "spark", "bars", "reduce", "analyze", "json-key"}[t.W(9)]
+	sc.Kind = []string{"histo", "histo", "table", "heatmap", "spark", "bars", "reduce", "analyze", "json-key", "spark-trunc"}[t.W(10)]
 	// corpus
 	p1 := 2 + t.W(5)
 	p2 := 1 + t.W(4)
@@ -155,7 +157,7 @@ func c3GenScenario(t *simrt.Tape) *c3Scenario {
 	badNums := t.WBool(1, 4)
 	// zero/negative totals make the bar, heat and spark renderers divide by zero or scale below 0:
 	// that is C14's subject (pure), kept out of this world
-	posOnly := sc.Kind == "bars" || sc.Kind == "heatmap" || sc.Kind == "spark" || sc.Kind == "histo"
+	posOnly := sc.Kind == "bars" || sc.Kind == "heatmap" || sc.Kind == "spark" || sc.Kind == "histo" || sc.Kind == "spark-trunc"
 	n := t.W(61)
 	re := regexp.MustCompile(`^(\S+) (\S+) (\S+)$`)
 	sc.Regex = `^(\S+) (\S+) (\S+)$`
@@ -223,6 +225,21 @@ func c3GenScenario(t *simrt.Tape) *c3Scenario {
 		if sc.Kind == "spark" {
 			sc.Flags = append(sc.Flags, "--notruncate")
 		}
+		sc.HasCSV = true
+	case "spark-trunc":
+		// the sparkline trims its table to the last --cols columns inside every render: the final table is
+		// still a function of the input (the kept columns are the last N of the final sorted column set)
+		sc.Tpls = []c3Tpl{c3KeyTpl(t, 1), c3KeyTpl(t, 2)}
+		if inc {
+			sc.Tpls = append(sc.Tpls, c3Tpl{{Grp: 3}})
+		}
+		sc.KeepCols = 1 + t.W(3)
+		sc.ColsDesc = t.WBool(1, 2)
+		cs := "text"
+		if sc.ColsDesc {
+			cs = "text:reverse"
+		}
+		sc.Flags = append(common, "spark", "--num", "1000", "--cols", strconv.Itoa(sc.KeepCols), "--sort-rows", "text", "--sort-cols", cs)
 		sc.HasCSV = true
 	case "bars":
 		sc.Tpls = []c3Tpl{c3KeyTpl(t, 1), c3KeyTpl(t, 2)}
@@ -418,7 +435,7 @@ func c3Reference(sc *c3Scenario) *c3Ref {
 		switch sc.Kind {
 		case "histo":
 			needInc = 1
-		case "table", "heatmap", "spark", "bars":
+		case "table", "heatmap", "spark", "bars", "spark-trunc":
 			needInc = 2
 		}
 		if needInc > 0 && len(parts) > needInc {
@@ -435,7 +452,7 @@ func c3Reference(sc *c3Scenario) *c3Ref {
 				continue
 			}
 			r.Hist[parts[0]] += inc
-		case "table", "heatmap", "spark", "bars":
+		case "table", "heatmap", "spark", "bars", "spark-trunc":
 			if !incOK {
 				r.ParseErrors++
 				continue
@@ -476,6 +493,23 @@ func c3Reference(sc *c3Scenario) *c3Ref {
 			r.Nums = append(r.Nums, v)
 		case "json-key":
 			r.Pairs[l.G[1]+"\x00"+l.G[2]+"\x00"+l.G[3]]++
+		}
+	}
+	if sc.Kind == "spark-trunc" && len(r.Cells) > sc.KeepCols {
+		cols := sortedKeys(r.Cells)
+		if sc.ColsDesc {
+			for i, j := 0, len(cols)-1; i < j; i, j = i+1, j-1 {
+				cols[i], cols[j] = cols[j], cols[i]
+			}
+		}
+		for _, c := range cols[:len(cols)-sc.KeepCols] {
+			delete(r.Cells, c)
+		}
+		r.Second = map[string]bool{}
+		for _, cm := range r.Cells {
+			for row := range cm {
+				r.Second[row] = true
+			}
 		}
 	}
 	return r
@@ -634,6 +668,15 @@ func init() {
 			if sc.Kind == "analyze" {
 				if !c3AnalyzeClose(base.Stdout, o.Stdout) {
 					rc.Violate("meta-stdout", "analyze output differs beyond rounding:\n--- variant 0\n%s\n--- variant %d\n%s\n%s", clip(base.Stdout, 600), i, clip(o.Stdout, 600), ctx(i))
+				}
+			} else if sc.Kind == "spark-trunc" && o.Stdout != base.Stdout {
+				// the truncating sparkline never clears screen lines of rows that Trim deleted: see known_findings.json.
+				// What must still agree: the rows that exist (CSV, checked above) and the summary line
+				sum := func(s string) string { return c3Summary.FindString(s) }
+				if sum(o.Stdout) != sum(base.Stdout) {
+					rc.Violate("meta-stdout", "summary differs between two variants: %q vs %q\n%s", sum(base.Stdout), sum(o.Stdout), ctx(i))
+				} else {
+					rc.Violate("meta-stdout-spark-stale-rows", "[spark-trunc] snapshot output of two variants differs (CSV export and summary agree):\n--- variant 0\n%s\n--- variant %d\n%s\n%s", clip(base.Stdout, 700), i, clip(o.Stdout, 700), ctx(i))
 				}
 			} else if o.Stdout != base.Stdout && c3Squash(o.Stdout) == c3Squash(base.Stdout) {
 				rc.Violate("meta-stdout-padding", "[%s] snapshot output of two variants of one scenario differs only in the amount of padding between cells:\n--- variant 0\n%s\n--- variant %d\n%s\n%s", sc.Kind, clip(base.Stdout, 700), i, clip(o.Stdout, 700), ctx(i))
@@ -795,7 +838,7 @@ func c3CheckReference(rc *RunCtx, sc *c3Scenario, ref *c3Ref, o *c3Out, ctx func
 			rc.Violate("ref-json-key-groups", "keyed by {.}: %d distinct captures (alpha,beta,n) give %d groups with counts %v, expected counts %v: identical matches did not yield identical keys\nCSV: %q\n%s",
 				len(wantCounts), len(counts), counts, wantCounts, clip(string(o.CSV), 600), ctx())
 		}
-	case "table", "heatmap", "spark":
+	case "table", "heatmap", "spark", "spark-trunc":
 		hdr := recs[0]
 		if len(hdr) == 0 || hdr[0] != "" {
 			fail("header %q does not start with an empty corner cell", hdr)
